@@ -1,8 +1,17 @@
 #!/bin/bash
 # tools/regress.sh : full regression of the checker itself (not a MANIFEST command):
-#  1. all 19 quick checks on /repo must be silent, 2. every kept seed must still be reported, 3. benign refactorings: count alarms
+#  1. all 19 quick checks on /repo must be silent, 2. every kept seed must still be reported, 3. every kept behaviour-preserving change
+#  (benign/B..G refactorings and additive features, T repaired twins) must be silent.  The benign part runs in ${SHARDS:-3} shards.
 cd /verif
 echo "== unchanged tree"; for i in 01 02 03 04 05 06 07 08 09 10 11 12 13 14 15 16 17 18 19; do ./check C$i 2>&1 | tail -1 | grep -v "violations=0 " ; done
 echo "== seeds"; tools/reverify_seeds.sh 2>&1 | grep -v "violations=[1-9]"
-echo "== benign"; for b in $(ls benign); do tools/try_benign.sh $b 2>&1; done | grep "^==\|^rule=" | grep -B1 "^rule=" | grep "^==" | cut -c1-80
+echo "== benign"
+N=${SHARDS:-3}
+ALL=($(ls benign))
+for k in $(seq 0 $((N-1))); do
+  ( for idx in "${!ALL[@]}"; do if [ $((idx % N)) -eq $k ]; then tools/try_benign.sh ${ALL[$idx]} 2>&1; fi; done > /tmp/regress.shard$k.$$ ) &
+done
+wait
+cat /tmp/regress.shard*.$$ | grep "^==\|^rule=" | grep -B1 "^rule=" | grep "^==" | cut -c1-80
+rm -f /tmp/regress.shard*.$$
 echo "== done"
